@@ -15,13 +15,14 @@ def node(kind, path, filt=()):
     return dict(kind=kind, path=path, filt=list(filt))
 
 def cmd(tool="shell", ins=(), outs=(), tag="", reads=(), failif="", failpt="before", aood=False, ami=False, amo=False,
-        extra=(), env=(), signature="", depstyle="makefile", depsok=True, expected=(), roots=(), spell=None, inherit_env=True):
+        extra=(), env=(), signature="", depstyle="makefile", depsok=True, expected=(), roots=(), spell=None, inherit_env=True, keep=False):
     """a command record; `sigx` (what the specification treats as the opaque signature-relevant remainder) is derived"""
     c = dict(tool=tool, ins=list(ins), outs=list(outs), tag=tag, reads=list(reads), failif=failif, failpt=failpt,
-             aood=aood, ami=ami, amo=amo, depsok=depsok, expected=list(expected), roots=list(roots))
+             aood=aood, ami=ami, amo=amo, depsok=depsok, expected=list(expected), roots=list(roots), keep=keep)
     c["_extra"] = list(extra); c["_env"] = [list(e) for e in env]; c["_signature"] = signature; c["_depstyle"] = depstyle
     c["_spell"] = spell or {}; c["_inherit_env"] = inherit_env
     c["_depfmt"] = depstyle          # the format the body actually writes (normally the declared style)
+    c["_failhow"] = "exit 1"         # how a failing body dies: "exit N" or "kill -SIG $$"
     return c
 
 def sigx_of(name, c, idx):
@@ -31,7 +32,7 @@ def sigx_of(name, c, idx):
     if c["_signature"]:
         return dict(explicit=c["_signature"])
     # the argument vector is an injective function of these fields
-    return dict(tag=c["tag"], reads=c["reads"], failif=c["failif"], failpt=c["failpt"], depsok=c["depsok"], idx=idx,
+    return dict(tag=c["tag"], reads=c["reads"], failif=c["failif"], failpt=c["failpt"], failhow=c["_failhow"], depsok=c["depsok"], idx=idx, keep=c["keep"],
                 extra=c["_extra"], env=c["_env"], depstyle=c["_depstyle"] if c["reads"] else "", depfmt=c["_depfmt"] if c["reads"] else "",
                 inherit=c["_inherit_env"])
 
@@ -82,8 +83,9 @@ def body_script(name, c, idx, nodes, abs_prefix):
     def P(n):          # file-system path of node n as seen from the command's working directory (the sandbox)
         p = nodes[n]["path"]
         return shlex.quote(p)
-    L = ["V=$(cat .vb)"]
-    if c["failif"] and c["failpt"] == "before": L.append("if [ -e %s ]; then exit 1; fi" % P(c["failif"]))
+    sx = sigx_of(name, c, idx); sx = {k: v for k, v in sx.items() if k not in ("extra", "env", "inherit", "depstyle")}
+    L = ["V=$(cat .vb)", ": " + shlex.quote(json.dumps(sx, sort_keys=True))]     # the argument vector is an injective function of these fields
+    if c["failif"] and c["failpt"] == "before": L.append("if [ -e %s ]; then %s; fi" % (P(c["failif"]), c["_failhow"]))
     def cat(ns):
         parts = []
         for n in ns:
@@ -93,13 +95,17 @@ def body_script(name, c, idx, nodes, abs_prefix):
     for j, o in enumerate(c["outs"], 1):
         if nodes[o]["kind"] != "file": continue
         parts = ["printf '%%s' %s" % shlex.quote("%s#%d[" % (c["tag"], j))] + cat(c["ins"]) + ["printf ']{'"] + cat(c["reads"]) + ["printf '}'"]
-        L.append("{ " + "; ".join(parts) + "; } > " + P(o))
-        L.append("touch -d @$((V+%d)) %s" % (idx, P(o)))
         par = os.path.dirname(nodes[o]["path"])
-        if par: L.append("touch -d @$((V+%d)) %s" % (idx, shlex.quote(par)))
+        stamp = ["touch -d @$((V+%d)) %s" % (idx, P(o))] + (["touch -d @$((V+%d)) %s" % (idx, shlex.quote(par))] if par else [])
+        if c["keep"]:      # write-if-changed: an output that already has the new content is left untouched
+            L.append("N=$( { " + "; ".join(parts) + "; } )")
+            L.append("if [ -f %s ] && [ ! -L %s ] && [ \"$(cat %s)\" = \"$N\" ]; then :; else printf '%%s' \"$N\" > %s; %s; fi" % (P(o), P(o), P(o), P(o), "; ".join(stamp)))
+        else:
+            L.append("{ " + "; ".join(parts) + "; } > " + P(o))
+            L += stamp
     if c["reads"]:
         L.append(sh_printf_bytes(deps_bytes(c, nodes, abs_prefix)) + " > " + shlex.quote(name + ".d"))
-    if c["failif"] and c["failpt"] == "after": L.append("if [ -e %s ]; then exit 1; fi" % P(c["failif"]))
+    if c["failif"] and c["failpt"] == "after": L.append("if [ -e %s ]; then %s; fi" % (P(c["failif"]), c["_failhow"]))
     L.append("exit 0")
     return "\n".join(L)
 
